@@ -470,7 +470,8 @@ def make_spy(n: int, k: int) -> Any:
     return Spy(cube_size=n, num_scrambles_on_reset=k)
 
 
-def scramble(n: int, ks: Sequence[int], n_keys: int, ball_depth: int, tier: str, seed: int) -> Dict[str, Any]:
+def scramble(n: int, ks: Sequence[int], n_keys: int, ball_depth: int, tier: str, seed: int,
+             sequences: bool = True) -> Dict[str, Any]:
     import jax
     import jax.numpy as jnp
     from jumanji.environments.logic.rubiks_cube import utils as U
@@ -494,6 +495,8 @@ def scramble(n: int, ks: Sequence[int], n_keys: int, ball_depth: int, tier: str,
     # scramble_solved_cube on every action sequence of length <= 2
     seqs2 = np.array(list(itertools.product(range(A), range(A))), np.int32)
     for L, seqs in ((0, np.zeros((1, 0), np.int32)), (1, np.arange(A, dtype=np.int32)[:, None]), (2, seqs2)):
+        if not sequences:
+            break
         got = np.asarray(jax.jit(jax.vmap(lambda s: U.scramble_solved_cube(s, n)))(jnp.asarray(seqs)))
         for i in range(len(seqs)):
             want = R.apply_moves(R.solved_cube(n).reshape(-1), n, seqs[i])
